@@ -84,7 +84,8 @@ func runStress(cfgJSON string, res *vlib.Result) {
 		wg.Add(1)
 		go func(w int) {
 			defer wg.Done()
-			mw := *m // own message counter
+			mw := *m // own message counter and own per-row maps (maps must not be shared between writer goroutines)
+			mw.seriesOf, mw.tOf = map[int]int{}, map[int]int{}
 			mw.msgID = uint64(w+1) << 32
 			for !stop.Load() {
 				b := int(batchSeq.Add(1))
